@@ -506,6 +506,10 @@ func (r *Recomposer) recomp(v any, rv reflect.Value) {
 }
 
 func (r *Recomposer) setValue(v any, rv reflect.Value, sf *reflect.StructField) {
+	if v == nil { // a null leaves the zero value, as encoding/json does
+		rv.Set(reflect.Zero(rv.Type()))
+		return
+	}
 	switch rv.Kind() {
 	case reflect.Bool:
 		if s, ok := v.(string); ok && sf != nil && strings.Contains(sf.Tag.Get("json"), ",string") {
